@@ -699,7 +699,7 @@ func c11Main(args []string) {
 	run.Rule = "programs generated as TEXT from the full grammar of the gojq fork (all binary operators and precedences, unary chains, ? stacking, .., paths/slices, reduce/foreach/label/break, if/elif/else, try/catch, def with plain/$ params and nesting, as-bindings with array/object destructuring and ?//, module/import/include, format and interpolated strings, keyword object keys, $__loc__, object shorthands, raw strings, 0x/0o/0b literals with _), minimal parentheses from the precedence table plus random redundant ones, random spacing/comments; classes vanilla 66% / directive 14% / wrap 20%; size <= 25 (quick) / 60 (thorough) nodes. distinct = hash of the parenthesis-normalised AST fq parsed (>= 3 nodes)"
 	run.Assumptions = []string{
 		"plain gojq (the fork, no fq functions) is the reference evaluator; programs of monitors 2/3 only use names it has, no recursion, literal-bounded ranges",
-		"the slurp branch of _eval_query_rewrite (help/repl/slurp as last pipe element) is exercised only through _query_toquery (monitor 1b), not end to end",
+		"the slurp branch of _eval_query_rewrite is exercised through _query_toquery (monitor 1b) and end to end by monitor 4 (REPL `P | slurp(\"v\")` then `$v`, 20 top-level shapes of P)",
 		"directive programs (module/import/include) are checked for round trip and rewrite structure only (they do not resolve)",
 		"CLI stderr is compared by the number of 'error: ' lines and the exit status, not by message text",
 		"program text is valid UTF-8",
@@ -722,6 +722,7 @@ func c11Main(args []string) {
 		return
 	}
 	c11Probes(run)
+	c11Slurp(run)
 	n := run.Pick(5000, 500000)
 	if v, err := strconv.Atoi(os.Getenv("C11_N")); err == nil && v > 0 {
 		n = v // development aid: shorter run of the same case list
